@@ -58,6 +58,65 @@ func genC06(t *rapid.T, free bool) ConcCase {
 		c.Sched = SchedSpec{Kind: 0, A: 0, Point: fgPoints[rapid.IntRange(0, len(fgPoints)-1).Draw(t, "fgpoint")], N: 1, Order: []int{1, 2, 3, 4, 0}}
 		return c
 	}
+	if !free && weighted(t, "directedFlush", []int{3, 1}) == 1 {
+		// Second directed shape: a flush is parked at a drawn point inside
+		// the flush pipeline (pool swapped / data written / bucket table not
+		// yet updated ...) while GC cycles and a reader run to completion.
+		// The prefix ends with unflushed writes so that the flush has work.
+		nw := rapid.IntRange(1, 3).Draw(t, "unflushed")
+		for i := 0; i < nw; i++ {
+			c.Prefix = append(c.Prefix, Op{K: opPut, Key: rapid.IntRange(0, len(c.Keys)-1).Draw(t, "ukey"), VLen: 6 + i})
+		}
+		rd := Op{K: []string{opGet, opHas, opSize}[rapid.IntRange(0, 2).Draw(t, "rdkind")], Key: rapid.IntRange(0, len(c.Keys)-1).Draw(t, "rdkey")}
+		c.Tasks = [][]Op{{{K: opFlush}}}
+		ngc := rapid.IntRange(1, 2).Draw(t, "ngc")
+		for g := 0; g < ngc; g++ {
+			if weighted(t, "gckind", []int{1, 2}) == 0 {
+				c.Tasks = append(c.Tasks, []Op{{K: opPGC, A: []int{0, 50, 100}[rapid.IntRange(0, 2).Draw(t, "lowuse")]}})
+			} else {
+				c.Tasks = append(c.Tasks, []Op{{K: opIGC, A: rapid.IntRange(0, 1).Draw(t, "scanfree")}})
+			}
+		}
+		c.Tasks = append(c.Tasks, []Op{rd, {K: opFlush}, rd})
+		flPoints := []string{"mh.flush.swapped", "mh.flush.write", "mh.flush.written", "commit.primaryFlushed", "index.flush.swapped", "index.roll.create", "index.roll.flushOld", "index.flush.write", "index.flush.written", "commit.indexFlushed", "fl.flush.swapped", "fl.flush.write"}
+		c.Sched = SchedSpec{Kind: 0, A: 0, Point: flPoints[rapid.IntRange(0, len(flPoints)-1).Draw(t, "flpoint")], N: rapid.IntRange(1, 2).Draw(t, "n"), Order: []int{1, 2, 3, 0}}
+		return c
+	}
+	if !free && weighted(t, "directedDouble", []int{3, 1}) == 1 {
+		// Third directed shape (two preemptions): a GC cycle is parked at a
+		// drawn point inside the cycle, then a flush runs up to a drawn point
+		// inside the flush pipeline, then the GC cycle finishes, then the
+		// flush, then a reader. GC and flush exclude each other only at the
+		// instant GC reads the current file number.
+		nw := rapid.IntRange(1, 3).Draw(t, "unflushed")
+		for i := 0; i < nw; i++ {
+			c.Prefix = append(c.Prefix, Op{K: opPut, Key: rapid.IntRange(0, len(c.Keys)-1).Draw(t, "ukey"), VLen: 6 + i})
+		}
+		var gcOp Op
+		var gcPoints []string
+		if weighted(t, "gckind", []int{1, 2}) == 0 {
+			gcOp = Op{K: opPGC, A: []int{0, 50, 100}[rapid.IntRange(0, 2).Draw(t, "lowuse")]}
+			gcPoints = []string{"pgc.fl.handed", "pgc.freelistDone", "pgc.file", "pgc.reap.truncate", "pgc.reap.relocate", "pgc.reap.relocated", "pgc.header", "pgc.unlink"}
+		} else {
+			gcOp = Op{K: opIGC, A: rapid.IntRange(0, 1).Draw(t, "scanfree")}
+			gcPoints = []string{"igc.file", "igc.reap.busyChecked", "igc.reap.mark", "igc.reap.truncate", "igc.free.scanned", "igc.header", "igc.unlink"}
+		}
+		rd := Op{K: []string{opGet, opHas, opSize}[rapid.IntRange(0, 2).Draw(t, "rdkind")], Key: rapid.IntRange(0, len(c.Keys)-1).Draw(t, "rdkey")}
+		c.Tasks = [][]Op{{gcOp}, {{K: opFlush}}, {rd}}
+		// The states in which written data is not yet reachable through the
+		// bucket table / index are the interesting ones: weight them.
+		flPoints := []string{"mh.flush.swapped", "mh.flush.written", "commit.primaryFlushed", "index.flush.swapped", "index.roll.create", "index.flush.write", "index.flush.written", "commit.indexFlushed", "fl.flush.swapped"}
+		flW := []int{1, 2, 2, 1, 1, 1, 6, 2, 1}
+		// Files that hold a couple of records, so that the file GC looks at
+		// can be the one the flush appends to.
+		if weighted(t, "roomy", []int{1, 2}) == 1 {
+			c.Cfg.IdxSize = []uint32{33, 40, 48, 64, 100}[rapid.IntRange(0, 4).Draw(t, "roomyidx")]
+			c.Cfg.PrimSize = []uint32{33, 48, 64, 100, 256}[rapid.IntRange(0, 4).Draw(t, "roomyprim")]
+		}
+		c.Sched = SchedSpec{Kind: 3, A: 0, Point: gcPoints[rapid.IntRange(0, len(gcPoints)-1).Draw(t, "gcpoint")], N: rapid.IntRange(1, 5).Draw(t, "n"),
+			B: 1, PointB: flPoints[weighted(t, "flpoint", flW)], NB: 1, Order: []int{2, 0, 1}}
+		return c
+	}
 	kinds := []string{opPut, opGet, opHas, opSize, opRemove}
 	genConcTasks(t, &c, kinds, []int{5, 4, 1, 1, 2}, 1, 3, 4)
 	ngc := rapid.IntRange(1, 2).Draw(t, "ngc")
